@@ -125,8 +125,8 @@ prop('C16', 'other',
      'so the wrapper must never pass one; singular => ArithmeticError with '
      'singularity a symbolic boolean per matrix), all call sequences <= 3: a result without NaN was computed with factors of the '
      'current matrix, singular => all-NaN, bounded retries; real ImplicitIter.step / PFlow.nr_step announce every Jacobian '
-     'rebuild to the solver; ipadd and rebuild accumulation of the real System.j_update agree entry-wise at a symbolic operating '
-     'point.',
+     'rebuild to the solver; the SciPy wrapper\'s one-shot entry point is stateless (a pending refresh survives interleaved linsolve calls); '
+     'ipadd and rebuild accumulation of the real System.j_update agree entry-wise at a symbolic operating point.',
      'NOT covered (not encodable): numerical agreement of KLU/UMFPACK/SuperLU, numba on/off, bit-reproducibility across processes '
      '(C libraries, float non-associativity), CuPy.',
      'symbolic execution of the real wrapper over a typestate model of the factorisation objects', 'DESIGN.md 3/C16')
@@ -136,7 +136,9 @@ prop('C17', 'other',
      '(arbitrary mismatch sequences, NaN flags, sub-routine outcomes): every exit of PFlow.nr_solve/run, TDS.test_init, TDS.run and '
      'EIG.run on an unsolved power flow, System.setup with failed links and andes.main.run exit-code aggregation; success implies '
      'the residual test passed on the last evaluated iterate, every failure returns False with a raised exit code and no '
-     'exception; test_init on residual vectors with not-a-number entries never reports success. Step-level facts are in C04/C06, the '
+     'exception; test_init and the real PFlow.nr_step on residual vectors with not-a-number entries never report success / a small '
+     'mismatch; one pass of the real TDS.run loop with the real stability criterion busts the run iff the rotor-angle spread exceeds the '
+     'limit. Step-level facts are in C04/C06, the '
      'singular-matrix path in C16.',
      'NaN modelled through the flag of the isnan test (comparisons with a flagged value are false); file parsing failures and NaN '
      'propagation inside numpy/C outside; multi-case runs without pool lose exit codes (listed known finding).',
@@ -148,7 +150,8 @@ prop('C20', 'other',
      'dictionary plumbing with symbolic presence of each channel (real ConfigParser merge, real Config.__init__/load/add): option > '
      'file > default, options sharing a section or naming a section absent from the file; pysym on the real Config.check for every '
      'numeric alternatives tuple of System, routines and all models; z3 regular-language inclusion/disjointness for int/float '
-     'rendering vs parsing in Config._set (type round trip), validated on the real _set.',
+     'rendering vs parsing in Config._set (type round trip), validated on the real _set; a field changed after construction '
+     '(attribute assignment, update()) is the value collect_config/save_config write, and update() rejects a value outside the alternatives.',
      "option strings <= 4 chars over 'aB.= 1' (no '%': configparser interpolation is outside); rc file reading/writing (file I/O) "
      'outside; float(repr(x)) == x trusted.',
      'CrossHair + path-forking symbolic execution + z3 string theory', 'DESIGN.md 3/C20')
@@ -180,8 +183,12 @@ prop('C15', 'other',
      'four Output selections (all / model / variable / device): one row per stored step with its time, exactly the selected '
      'columns, labels naming the kept slots, queries by variable and by device subset return those devices; the storing branch of '
      'the TDS.run loop (cut from source) keeps exactly the due steps for save_every 0..3; real DAE.write_npz chunking with the file '
-     'replaced by an in-memory store writes every row once, in order.',
-     'NOT covered (not encodable): npz/lst/csv files, the plotting loader TDSData, replay from csv; store_z/f/h/i arrays.',
+     'replaced by an in-memory store writes every row once, in order, also when the series is kept between off-loads (resumed run); the '
+     'file chain write_lst -> load_lst -> export_csv -> csv read-back with in-memory files and symbolic cells; queries by variable '
+     'through the plotting loader address the columns of exactly those variables; replay from csv through the real TDS.run stores '
+     'one row per row of the table (a table of distinct tags: deterministic, no solver needed).',
+     'NOT covered (not encodable): number formatting/parsing of savetxt/loadtxt/read_csv, the npz container, plotting itself; '
+     'store_z/f/h/i arrays.',
      'symbolic tag flow through the real storage code + z3', 'DESIGN.md 3/C15')
 
 prop('C14', 'model_checking',
